@@ -34,11 +34,11 @@ func (w *World) keyObj(name string, variant int) (crypto.PublicKey, *big.Int) {
 	case "a":
 		return w.PK(map[string]int{"x1": 1}, 0), w.Scalar("x1")
 	case "a2": // the same point in another object with another internal representation
-		return w.PK(map[string]int{"x1": 1}, 1+variant%3), w.Scalar("x1")
+		return w.PK(map[string]int{"x1": 1}, 1+variant%5), w.Scalar("x1")
 	case "na":
 		return w.PK(map[string]int{"x1": -1}, variant%2), new(big.Int).Sub(ref.R, w.Scalar("x1"))
 	case "b":
-		return w.PK(map[string]int{"x2": 1}, variant%4), w.Scalar("x2")
+		return w.PK(map[string]int{"x2": 1}, variant%6), w.Scalar("x2")
 	}
 	return w.PK(map[string]int{}, variant), new(big.Int)
 }
